@@ -26,6 +26,8 @@ fn text_for(version: i32, kind: char) -> String {
     match kind {
         'i' => format!("import dep\n\ndef v{version}() -> int:\n    return {version}\n"),
         'b' => format!("def v{version}( -> int:\n    return {version}\n"),
+        // does not even lex (an unterminated string literal)
+        'l' => format!("def v{version}() -> int:\n    return \"unterminated {version}\n"),
         _ => format!("def v{version}() -> int:\n    return {version}\n"),
     }
 }
@@ -287,7 +289,7 @@ fn gen_history(rng: &mut Rng) -> Vec<Note> {
     for _ in 0..n {
         let doc = if two_docs { rng.below(2) as usize } else { 0 };
         version += 1;
-        let kind = *rng.pick(&['v', 'v', 'i', 'i', 'b']);
+        let kind = *rng.pick(&['v', 'v', 'i', 'i', 'b', 'l']);
         if !open[doc] {
             h.push(Note::Open { doc, version, kind });
             open[doc] = true;
@@ -335,6 +337,9 @@ pub fn run(out: &mut Out, tier: &str, seed: u64, scratch: &str) {
         // close overtaking a pending analysis
         vec![Note::Open { doc: 0, version: 1, kind: 'i' }, Note::Close { doc: 0 }],
         vec![Note::Open { doc: 0, version: 1, kind: 'i' }, Note::Close { doc: 0 }, Note::Open { doc: 0, version: 2, kind: 'v' }],
+        // a text that does not lex as the newest version: it is what the editor shows, the old answers must go
+        vec![Note::Open { doc: 0, version: 1, kind: 'v' }, Note::Change { doc: 0, version: 2, kind: 'l' }],
+        vec![Note::Open { doc: 0, version: 1, kind: 'i' }, Note::Change { doc: 0, version: 2, kind: 'l' }, Note::Change { doc: 0, version: 3, kind: 'v' }],
         // a save while a newer version is still being analysed, and a save before a change: neither may bring old text back
         vec![Note::Open { doc: 0, version: 1, kind: 'v' }, Note::Change { doc: 0, version: 2, kind: 'i' }, Note::Save { doc: 0 }],
         vec![Note::Open { doc: 0, version: 1, kind: 'i' }, Note::Save { doc: 0 }, Note::Change { doc: 0, version: 2, kind: 'v' }, Note::Save { doc: 0 }],
